@@ -9,7 +9,7 @@ use serde_json::{json, Value};
 pub static ENGINE: Engine = Engine {
     prop: "C18",
     level: "exploration",
-    rule: "the real random_graph_gen binary with its random source scripted through the verif-hooks feature: for every (V, -u) whose candidate edge list has m <= 6 entries (directed V <= 3, undirected V <= 4) ALL m! Fisher-Yates choice vectors x every E in 0..m+1 x {edge list, --dot}: exactly E distinct edges, endpoints distinct and among v0..v(V-1), no reversed pair under -u, E > m refused with non-zero exit and no edge printed, and the number of distinct outputs over all vectors equals m!/(m-E)! (proof that every choice is owned). For larger candidate lists (V=4,5 directed; V=5,6 undirected; m = 10..20) every ORDERED SELECTION of E <= 2 (3) candidate edges is forced by a constructed choice vector. --complete x V in 0..5 x -u = all pairs. --convert: every edge list <= 3 over {a,b,c} x -u reproduces the list (reversed duplicates merged under -u). --colors k: every loop-free graph on <= 4 named vertices (two name families, one with names that are prefixes of each other) x k in 0..3: the output has a clique choosing one (vertex,colour) per input vertex iff the input is k-colourable (brute force). Labelled supplement: un-scripted runs with fresh entropy (sampled, not part of the claim). distinct = distinct (argv, script, stdout)",
+    rule: "the real random_graph_gen binary with its random source scripted through the verif-hooks feature: for every (V, -u) whose candidate edge list has m <= 6 entries (directed V <= 3, undirected V <= 4) ALL m! Fisher-Yates choice vectors x every E in 0..m+1 x {edge list, --dot}: exactly E distinct edges, endpoints distinct and among v0..v(V-1), no reversed pair under -u, E > m refused with non-zero exit and no edge printed, and the number of distinct outputs over all vectors equals m!/(m-E)! (proof that every choice is owned). For larger candidate lists (V=4,5 directed; V=5,6 undirected; m = 10..20) every ORDERED SELECTION of E <= 2 (3) candidate edges is forced by a constructed choice vector. -o FILE onto an existing longer file = stdout of the same request. --complete x V in 0..5 x -u = all pairs. --convert: every edge list <= 3 over {a,b,c} x -u reproduces the list (reversed duplicates merged under -u). --colors k: every loop-free graph on <= 4 named vertices (two name families, one with names that are prefixes of each other) x k in 0..3: the output has a clique choosing one (vertex,colour) per input vertex iff the input is k-colourable (brute force). Labelled supplement: un-scripted runs with fresh entropy (sampled, not part of the claim). distinct = distinct (argv, script, stdout)",
     assumptions: &["the hook replays RSBDD_VERIF_RNG as the u32 values drawn by rand 0.8's shuffle (widening-multiply index sampling); a mismatch shows up as a wrong number of distinct outputs", "k-colourability is defined on loop-free graphs; isolated vertices cannot be expressed in an edge list"],
     max_shards: 64,
     run,
@@ -256,6 +256,46 @@ fn selection_sweep(ctx: &mut Ctx) {
     }
 }
 
+
+/// `-o FILE`: the file must hold exactly what stdout would show, also when FILE existed
+/// before and was longer
+fn output_file_sweep(ctx: &mut Ctx) {
+    let filler = "v9,v8\n".repeat(400);
+    let mut idx = 0u64;
+    for (v, e, u, dot) in [(3usize, 2usize, false, false), (3, 6, false, true), (4, 3, true, false), (4, 6, true, true), (2, 0, false, false), (1, 0, true, true)] {
+        idx += 1;
+        if !ctx.mine(idx) {
+            continue;
+        }
+        let m = if u { v * v.saturating_sub(1) / 2 } else { v * v.saturating_sub(1) };
+        let target: Vec<usize> = (0..m).rev().collect();
+        let script = script_for_permutation(&target);
+        let c = json!({"part": "outfile", "v": v, "e": e, "undirected": u, "dot": dot});
+        ctx.begin_case(|| c.clone());
+        ctx.count("evaluations", 1);
+        ctx.count("output_file_runs", 1);
+        let reference = run_generate(v, e, u, dot, Some(&script));
+        let f = scratch_file("out-existing.txt", filler.as_bytes());
+        let mut args = vec![v.to_string(), e.to_string(), "-o".to_string(), f.display().to_string()];
+        if u {
+            args.push("-u".into());
+        }
+        if dot {
+            args.push("--dot".into());
+        }
+        let env: Vec<(&str, String)> = vec![("RSBDD_VERIF_RNG", script.iter().map(|x| x.to_string()).collect::<Vec<_>>().join(","))];
+        let r = run_bin("random_graph_gen", &args, None, &env);
+        let key = format!("{TAG} random_graph_gen {}", args.iter().map(|a| if a.contains('/') { "<existing file>".to_string() } else { a.clone() }).collect::<Vec<_>>().join(" "));
+        ctx.distinct(&(v, e, u, dot, "outfile"));
+        let written = std::fs::read(&f).unwrap_or_default();
+        if !r.ok() || !reference.ok() {
+            ctx.violation(key, format!("run failed: {} {}", r.describe(), r.err_tail()), c);
+        } else if written != reference.stdout {
+            ctx.violation(key, format!("the output file holds {} bytes that differ from what the same request prints on stdout ({} bytes); it existed before with longer content", written.len(), reference.stdout.len()), c);
+        }
+    }
+}
+
 fn complete_sweep(ctx: &mut Ctx) {
     for v in 0..=5usize {
         for u in [false, true] {
@@ -443,6 +483,7 @@ fn unscripted_supplement(ctx: &mut Ctx) {
 fn run(ctx: &mut Ctx) {
     scripted_sweep(ctx, None);
     selection_sweep(ctx);
+    output_file_sweep(ctx);
     if ctx.shard == 0 {
         complete_sweep(ctx);
     }
@@ -455,6 +496,15 @@ fn replay(ctx: &mut Ctx, c: &Value) {
     let edges = || -> Vec<(String, String)> { c["edges"].as_array().map(|a| a.iter().map(|e| (e[0].as_str().unwrap_or("").to_string(), e[1].as_str().unwrap_or("").to_string())).collect()).unwrap_or_default() };
     match c["part"].as_str() {
         Some("complete") => complete_sweep(ctx),
+        Some("outfile") => {
+            let mut c2 = Ctx::new("C18", ctx.tier, ctx.seed, 0, 1);
+            output_file_sweep(&mut c2);
+            for v in c2.violations {
+                if v.replay == *c {
+                    ctx.violation(v.key, v.what, v.replay);
+                }
+            }
+        }
         Some("convert") => match c["colors"].as_u64() {
             Some(k) => check_colors(ctx, &edges(), k as usize),
             None => check_convert(ctx, &edges(), c["undirected"].as_bool().unwrap_or(false)),
